@@ -518,9 +518,9 @@ func c06Body(c *mc.Ctx) {
 	var what string
 	thorough := c.Tier == "thorough"
 	hostile := false
-	// the deep-nesting probes come first in exploration order, so that a tier cut short by its
-	// deadline has always run them
-	switch (c.Pick("family", 6) + 5) % 6 {
+	// (the deep-nesting probes are the LAST family on purpose: the shrinker lowers choice values, and
+	// a probe costs seconds; as family 0 every shrink attempt of every other failure would run one)
+	switch c.Pick("family", 6) {
 	case 5:
 		c06Deep(c)
 		return
